@@ -64,7 +64,11 @@ def build(r, kind):
         # vary annotations between use sites
         user["properties"]["opt"]["title"] = "Titled use"
         defs = {"User": user, "Choice": enum, "Bystander": bystander, "Alias": dict(cs, description="as a definition")}
-        settings = {"conversions": [{"schema": cs, "type": REPL, "impls": ["Display"]}]}
+        conv_schema = dict(cs)
+        if r.random() < 0.5:
+            # the conversion schema itself may carry annotations (e.g. copied verbatim from the document)
+            conv_schema[r.choice(["description", "title"])] = "annotated conversion schema"
+        settings = {"conversions": [{"schema": conv_schema, "type": REPL, "impls": ["Display"]}]}
         info.update(conv=cs, affected=["User", "Choice", "Alias"])
         return {"definitions": defs}, settings, info
     target = copy.deepcopy(r.choice(TARGETS))
